@@ -47,3 +47,13 @@ let bitable_of (qs : (z * (nat * group) list) list) (hshift : int) (qshift : int
       match body with None -> None | Some b -> Some ((i, j), b)) gs) qs in
   let cells = Stdlib.List.sort compare cells in
   String.concat " " (Stdlib.List.map (fun ((i, j), b) -> Printf.sprintf "(%d,%d)=%s" i j b) cells)
+
+(* crossing signs computed by the model of Link (Model/Link.v through KhSigns); the numbers in the case
+   line come from the implementation and must agree *)
+let model_signs (l : link) (np : int) (nn : int) : (int * int, string) result =
+  match signed_nums l with
+  | None -> Error "MODEL-SIGNS-NONE"
+  | Some (p, n) ->
+      let (p, n) = (int_of_nat p, int_of_nat n) in
+      if p = np && n = nn then Ok (p, n)
+      else Error (Printf.sprintf "SIGNS-DIFFER model=(%d,%d) impl=(%d,%d)" p n np nn)
